@@ -123,6 +123,49 @@ def remove (s : Index) (id : Nat) (pick : Nat × Nat) (relink : Nat → Nat → 
         version := s.version + 1
         maxLayer := maxLayer' }, true)
 
+/-- the rewritten copy of node `j`, if `insert` rewrote it -/
+def applyEdit (edits : List (Nat × Node)) (j : Nat) (n : Node) : Node :=
+  match getNode edits j with
+  | some n' => n'
+  | none => n
+
+/-- `HnswIndex::insert`, bookkeeping only.  The new node and the rewritten neighbours (`edits`) are
+inputs: graph construction — random level, `search_layer`, `select_neighbors`, pruning — is not
+modelled.  `valid` = dimension and finiteness checks passed.  Only existing keys are rewritten
+(`match nodes.get(&neighbor_id) { None => continue }`). -/
+def insertAbs (s : Index) (id : Nat) (node : Node) (edits : List (Nat × Node)) (pick : Nat × Nat) (valid : Bool) :
+    Index × Bool :=
+  if !valid then (s, false)
+  else if (getNode s.nodes id).isSome then (s, false)        -- AlreadyExists
+  else if s.nodes.isEmpty then
+    -- first node: becomes the entry point
+    ({ s with
+        nodes := [(id, node)]
+        ids := setInsert s.ids id
+        entry := (id, node.layer)
+        removed := s.removed.filter (fun x => x != id)
+        dirty := setInsert s.dirty id
+        version := s.version + 1
+        maxLayer := node.layer }, true)
+  else
+    -- self-heal of a stale entry point before the descent
+    let entry0 : Nat × Nat :=
+      if (getNode s.nodes s.entry.1).isNone then (match choose s.nodes pick with | some p => p | none => (0, 0))
+      else s.entry
+    let edited : NodeMap := s.nodes.map (fun p => (p.1, applyEdit edits p.1 p.2))
+    let nodes' : NodeMap := (id, node) :: edited
+    let entry' : Nat × Nat :=
+      if decide (entry0.2 < node.layer) || (getNode nodes' entry0.1).isNone then (id, node.layer) else entry0
+    let touchedIds : List Nat := (edits.map (·.1)).filter (fun j => (getNode s.nodes j).isSome)
+    ({ s with
+        nodes := nodes'
+        ids := setInsert s.ids id
+        entry := entry'
+        removed := s.removed.filter (fun x => x != id)
+        dirty := (id :: touchedIds).foldl setInsert s.dirty
+        version := s.version + 1
+        maxLayer := max s.maxLayer node.layer }, true)
+
 /-! ### durable objects -/
 
 /-- a node blob as `validate_loaded_node` sees it -/
@@ -210,6 +253,65 @@ def afterFlush (s : Index) : Index :=
   let s1 : Index := if flushPending s then { s with dirty := [], savedVersion := max s.savedVersion s.version } else s
   -- every tombstone is retired (deleted or skipped as re-inserted), one version bump each
   { s1 with removed := [], version := s1.version + s1.removed.length }
+
+/-! ### the flush as snapshot → writes → commit, with mutations inside the write window
+
+`flush_with` captures its snapshot under the structural lock, releases the lock and only then awaits
+the write callbacks, so `insert` / `remove` may run between any two writes and between the last
+write and the commit.  `commit_flush_snapshot` clears the snapshot's dirty marks ONLY IF the global
+version is still the snapshot's version (no mutation crossed the window); otherwise every mark stays
+and the next flush rewrites those nodes. -/
+
+structure Snapshot where
+  version : Nat
+  dirtyIds : List Nat
+  writes : List Write
+deriving Repr
+
+/-- `capture_flush_snapshot` -/
+def capture (s : Index) : Option Snapshot :=
+  if flushPending s then some { version := s.version, dirtyIds := s.dirty, writes := flushWrites s } else none
+
+/-- does the commit clear the snapshot's dirty marks?  The guard is the GENERATED one: with
+`commitClearsOnlyIfVersionUnchanged` it is `stats.version == snapshot.version`; without it (an edit
+that drops the guard) the marks are always cleared. -/
+def commitClears (s : Index) (sn : Snapshot) : Bool :=
+  !Gen.HnswOrder.commitClearsOnlyIfVersionUnchanged || decide (s.version = sn.version)
+
+/-- `commit_flush_snapshot` -/
+def commit (s : Index) (sn : Snapshot) : Index :=
+  { s with
+      dirty := if commitClears s sn then s.dirty.filter (fun i => !sn.dirtyIds.contains i) else s.dirty
+      savedVersion := max s.savedVersion sn.version }
+
+inductive Mut where
+  | ins (id : Nat) (node : Node) (edits : List (Nat × Node)) (pick : Nat × Nat) (valid : Bool)
+  | rem (id : Nat) (pick : Nat × Nat) (relink : Nat → Nat → List Nat → List Nat)
+
+def applyMut (s : Index) : Mut → Index
+  | .ins id node edits pick valid => (insertAbs s id node edits pick valid).1
+  | .rem id pick relink => (remove s id pick relink).1
+
+/-- one step inside the window: the next write of the snapshot becomes durable, or a mutation runs -/
+inductive WStep where
+  | write
+  | mutate (m : Mut)
+
+def runWindow : List WStep → Durable → Index → List Write → Durable × Index × List Write
+  | [], D, s, rem => (D, s, rem)
+  | .write :: r, D, s, [] => runWindow r D s []
+  | .write :: r, D, s, w :: rem => runWindow r (applyWrite D w) s rem
+  | .mutate m :: r, D, s, rem => runWindow r D (applyMut s m) rem
+
+/-- a complete `flush_with` with an arbitrary interleaving of mutations into its window: whatever
+writes the step list did not reach are performed afterwards (the flush runs to completion), then
+the commit.  When nothing is pending no callback runs (the mutations of the list still happen). -/
+def windowFlush (D : Durable) (s : Index) (steps : List WStep) : Durable × Index :=
+  match capture s with
+  | none => (D, (runWindow steps D s []).2.1)
+  | some sn =>
+    let r := runWindow steps D s sn.writes
+    (applyWrites r.1 r.2.2, commit r.2.1 sn)
 
 /-! ### load -/
 
